@@ -211,7 +211,7 @@ def run_expiry_case(case):
         if not s.wait_for(lambda: "total" in stats_values(s.fresh_screen()), 4.0):
             raise Inconclusive("Stats tab did not appear")
         sv = {}
-        for attempt in range(4):
+        for attempt in range(12):
             s.p.pump(0.05 if attempt == 0 else 0.4)
             sv = stats_values(s.fresh_screen())
             if sv.get("total") == str(total):
@@ -224,7 +224,7 @@ def run_expiry_case(case):
         if not s.wait_for(lambda: table_rows(s.fresh_screen()) is not None, 4.0):
             raise Inconclusive("Airplanes tab did not appear")
         probs = []
-        for attempt in range(4):
+        for attempt in range(12):
             s.p.pump(0.15 if attempt == 0 else 0.4)
             t_look = time.time()
             tr = table_rows(s.fresh_screen())
@@ -253,7 +253,7 @@ def run_expiry_case(case):
             while time.time() - quiet_from < T + SLACK + 0.7:
                 s.p.pump(0.2)
             left = None
-            for attempt in range(4):
+            for attempt in range(12):
                 s.p.pump(0.1 if attempt == 0 else 0.4)
                 tr = table_rows(s.fresh_screen())
                 if tr is None:
@@ -363,7 +363,7 @@ def run_case(case):
             # the screen must converge to the tracker's data: a difference counts only if it is
             # still there on later looks (a redraw may be under way at the first one)
             probs, rows = [], None
-            for attempt in range(4):
+            for attempt in range(12):
                 s.p.pump(0.1 if attempt == 0 else 0.4)
                 probs, rows = look()
                 if not probs:
@@ -379,7 +379,7 @@ def run_case(case):
             if not ok:
                 raise Inconclusive("Stats tab did not appear")
             sv = {}
-            for attempt in range(4):
+            for attempt in range(12):
                 s.p.pump(0.05 if attempt == 0 else 0.4)
                 sv = stats_values(s.fresh_screen())
                 if sv.get("total") == str(exp["total_added"]) and (not keys or sv.get("most") == str(exp["most"])):
